@@ -1,6 +1,9 @@
 package verifsim
 
 import (
+	"crypto/sha256"
+	"encoding/binary"
+	"sync"
 	"context"
 	crand "crypto/rand"
 	"encoding/json"
@@ -33,6 +36,46 @@ func (s *seededReader) Read(b []byte) (int, error) {
 		b[i] = byte(s.p.Next())
 	}
 	return len(b), nil
+}
+
+// instantReader is the crypto/rand replacement of the whole-stack engines: the bytes are a function of (seed,
+// simulated instant, request length, n-th request of that length at that instant). Readers of different lengths
+// (1 byte: choice of the sync peer; 8 bytes: ping and version nonces) therefore do not perturb each other when
+// their goroutines run at the same simulated instant.
+type instantReader struct {
+	mu   sync.Mutex
+	seed uint64
+	at   int64
+	cnt  map[int]uint32
+}
+
+func (s *instantReader) Read(b []byte) (int, error) {
+	s.mu.Lock()
+	now := time.Now().UnixNano()
+	if now != s.at || s.cnt == nil {
+		s.at, s.cnt = now, map[int]uint32{}
+	}
+	s.cnt[len(b)]++
+	k := s.cnt[len(b)]
+	s.mu.Unlock()
+	var in [28]byte
+	binary.LittleEndian.PutUint64(in[0:], s.seed)
+	binary.LittleEndian.PutUint64(in[8:], uint64(now))
+	binary.LittleEndian.PutUint32(in[16:], uint32(len(b)))
+	binary.LittleEndian.PutUint32(in[20:], k)
+	for off, blk := 0, uint32(0); off < len(b); blk++ {
+		binary.LittleEndian.PutUint32(in[24:], blk)
+		h := sha256.Sum256(in[:])
+		off += copy(b[off:], h[:])
+	}
+	return len(b), nil
+}
+
+func withInstantRand(seed uint64, f func()) {
+	old := crand.Reader
+	crand.Reader = &instantReader{seed: seed}
+	defer func() { crand.Reader = old }()
+	f()
 }
 
 func withSeededRand(seed uint64, f func()) {
